@@ -798,7 +798,7 @@ func shapeOf(p Prop) string {
 
 func runC04(cfg *vh.Config) error {
 	res := vh.NewResult("C04", cfg.Seed)
-	res.Rule = "objects of 2-7 properties over every field type (integer x4, string, bytes, bool, enum, key x5 formats with entity keys, float x2, date, decimal, timestamp, any, object (flatten), oneof), each plain / required / optional / array (rules, singleForm) / map, every validation rule absent / zero / boundary, both values of every boolean, list rules (filtering, default filters, sorting, default sort, searching), descriptions; non-trivial = distinct property declaration carrying at least one rule, flag, format or annotation"
+	res.Rule = "objects of 2-7 properties (every 32nd unit 11-24; the first unit 16 pinned ones) over every field type (integer x4, string, bytes, bool, enum, key x5 formats with entity keys, float x2, date, decimal, timestamp, any, object (flatten), oneof), each plain / required / optional / array (rules, singleForm) / map, every validation rule absent / zero / boundary, both values of every boolean, list rules (filtering, default filters, sorting, default sort, searching), descriptions; non-trivial = distinct property declaration carrying at least one rule, flag, format or annotation"
 	cf := &vh.CasesFile{
 		Header: "From Coq Require Import String List NArith ZArith.\nFrom J5V.lib Require Import Outcome.\nFrom J5V.model Require Import ProtoPrintLit ProtoPrint ProtoPrintFile.\nFrom J5V.model Require Import RulesDecl RulesRead RulesEnum RulesNested RulesInlineEnum RulesCompile RulesReadCorr.",
 		Type:   "c04case",
@@ -826,12 +826,20 @@ func runC04(cfg *vh.Config) error {
 		}
 		var props []genDecl
 		nProps := r.Range(2, 7)
-		if u%16 == 5 {
+		if u%32 == 5 {
 			// pinned: objects with more than 10 properties (field numbers of two digits:
 			// the printed order of the fields is the numeric one, not the order of the
 			// number's text; seeded C04-E)
-			nProps = r.Range(11, 30)
+			nProps = r.Range(11, 24)
 			res.Count("object-with-more-than-10-properties")
+		}
+		if u == 0 {
+			genAST = false
+			env = theEnumZ
+			kind = "object"
+			props = pinnedC04()
+			nProps = 0
+			res.Count("unit-pinned")
 		}
 		for i, n := 0, nProps; i < n; i++ {
 			gd := genProp04(r, propName(r, i), env)
